@@ -44,8 +44,11 @@ CHECKS = {
             'Every fault script over the 20-letter per-transmission alphabet (x TCP connect outcomes) up to depth '
             'retries+1 is executed on the real UdpInverterProtocol/TcpInverterProtocol running on the real CPython '
             'selector loop and transports; a monitor checks termination, the transmission bound, the completion '
-            'bound and the exact silent-peer timing on every execution.  This is a coverage statement over all '
-            'orderings the alphabet can produce, which example tests cannot give.',
+            'bound and the exact silent-peer timing on every execution; the same exploration is repeated from non-initial '
+            'states (after a success, a delayed rejection, exhausted retries, fragments, a late answer on the same '
+            'object), and the thorough tier replays 74 traces on real loopback sockets to bind the kernel model to '
+            'reality.  This is a coverage statement over all orderings the alphabet can produce, which example tests '
+            'cannot give.',
             'Trusted: kernel model (mc/kernel.py: sockets, selector, virtual clock), CPython 3.12.1 asyncio, the '
             'independent codec mc/wire.py.  Bounded by the alphabet and by depth R+1 (deviation bound for R=3).',
             'DESIGN.md section 3, C04'),
@@ -68,7 +71,8 @@ CHECKS = {
             '{0, 0.3T, T, T+eps, 1.3T} and per-transmission answers {prompt, drop, delayed, two fragments} (all '
             'within the proviso of the property) is executed for N=2 (N=3 in the thorough tier; deviation-bounded '
             'beyond).  The monitor checks mutual exclusion on the wire against the peer-side record of outstanding '
-            'transmissions, that each caller gets its own tag, deadlock freedom and the loop exception handler.',
+            'transmissions, that each caller gets its own tag, deadlock freedom and the loop exception handler; the callers '
+            'are also started right after an earlier request on the same object (rejected late, fragmented, garbage, exhausted).',
             'Trusted: kernel model, CPython 3.12.1 asyncio (Lock fairness, task wake-up order are the real ones).',
             'DESIGN.md section 3, C06'),
     'C07': ('model_checking',
@@ -78,7 +82,9 @@ CHECKS = {
             'must be reassembled exactly with one transmission.  Negative second pieces (every bit flip for small '
             'counts, +-1 byte, other block, garbage) and left-over-fragment scenarios over several transmissions '
             'are checked against an oracle that only accepts well-formed frames (independent classifier) made of '
-            'data received for the final transmission.',
+            'data received for the final transmission; cross-request scenarios (a fragment left by an earlier request that ended '
+            'with an exception frame, a timeout or a late remainder) and a second protocol object active between the two '
+            'pieces are included.',
             'Trusted: kernel model (stream transport coalesces simultaneous pieces as the real one does), mc/wire.py. '
             'Two fragments only; second-piece alphabet as listed in the evidence.',
             'DESIGN.md section 3, C07'),
@@ -87,7 +93,9 @@ CHECKS = {
             'All 256 exception codes x read/write/write-multi x RTU/MBAP are fed to the real validators and, as the '
             'answer to transmission k+1 after k silent timeouts for every k<=R, to the real protocol objects: the '
             'request must fail with RequestRejectedException carrying the reason text of the Modbus specification, '
-            'at the arrival time of the frame, with no further transmission.',
+            'at the arrival time of the frame, with no further transmission - also when earlier requests (successes, delayed '
+            'rejections, fragments, garbage) precede it on the same object; ET callers are run against a device refusing '
+            'blocks with code 2 versus other codes (only code 2 may switch a capability off).',
             'Trusted: reason table in mc/wire.py (written from the Modbus spec), kernel model.',
             'DESIGN.md section 3, C08'),
     'C09': ('model_checking',
@@ -97,7 +105,8 @@ CHECKS = {
             'must be an InverterError (RequestFailed/RequestRejected for Inverter methods) and the loop exception '
             'handler must stay silent.  (b) BFS with fingerprint de-duplication over success/failure histories up '
             'to length 8 checks consecutive_failures_count against a reference counter.  (c) identification '
-            'payloads built from byte classes in every text field go through connect()/discover().',
+            'payloads built from byte classes in every text field go through connect()/discover().  (d) two or three '
+            'overlapping callers on one inverter object x outcomes x start offsets: the count must follow completion order.',
             'Trusted: kernel model, CPython 3.12.1 asyncio.  A rejected request is neither success nor failure for '
             'the counter (both readings accepted).',
             'DESIGN.md section 3, C09'),
@@ -108,7 +117,7 @@ CHECKS = {
             '(open transports <= 1; none open after a request with keep-alive off or after close(); same socket '
             'reused by consecutive successes with keep-alive on) is evaluated at every transmission, connect and '
             'operation boundary, and every history ends with a healthy request that must succeed with one '
-            'transmission.',
+            'transmission; at descriptor level, after garbage collection every open socket must belong to an open transport.',
             'Trusted: kernel model; transports are observed through is_closing() of the real transport objects the '
             'loop created.  Bounded by history depth 3 (quick) / 4 (thorough).',
             'DESIGN.md section 3, C10'),
@@ -128,7 +137,8 @@ CHECKS = {
             'Every sensor with own registers of every table of ET/DT/ES is decoded for all contents of its 2-byte field '
             '(each half of 4-byte fields, per-byte/per-word for larger groups) embedded in seed-selected blocks at three '
             'block start addresses and both Modbus framings and compared with a reference decoder written per type from '
-            'the documentation; every other byte of the block is then perturbed and the value must not change.  The '
+            'the documentation; every other byte of the block is then perturbed and the value must not change; whole tables with '
+            'uniform contents are decoded in one process in table order and reverse order (state shared between sensors).  The '
             'register map itself (id -> type, address, scale, unit) is compared with a pinned copy.',
             'Trusted: mc/refdec.py, the pinned register map mc/data/address_map.json (taken from the tables at the pinned '
             'commit; it stands in for the vendor register documentation).',
@@ -199,7 +209,8 @@ CHECKS = {
             'DESIGN.md section 3, C19'),
     'C20': ('model_checking',
             'exhaustive request-level interleaving exploration of two inverter objects with a solo-vs-interleaved differential oracle',
-            'Two inverter objects (same and different families/platforms) talk to two device models with different '
+            'Two inverter objects (same and different families/platforms/phase types, devices that refuse settings or fragment '
+            'their answers) talk to two device models with different '
             'register contents on one real event loop; whenever both wait for an answer the explorer chooses whose answer '
             'is delivered first (deviation-bounded from FIFO).  Each object must send the same requests and return the same '
             'results as when its calls run alone, and every value handed to the caller is re-snapshotted at the end and '
